@@ -17,7 +17,7 @@ package file
 //@ func newTagItems
 //@   modifies nothing
 //@   loop#0 invariant sliceptr(items) == 0 || fresh(sliceptr(items))
-//@   ensures fresh(sliceptr(result)) || result == nil
+//@   ensures [C06 C07 tags.fresh] fresh(sliceptr(result)) || result == nil
 
 //@ func (tagItems).format
 //@   modifies nothing
